@@ -107,6 +107,12 @@ type driver struct {
 	brs     map[string]*browser
 	forged  int
 	scID    string
+
+	parallel  bool                 // a "parallel" step is running: no gates, attribution by context / code / refresh token
+	big       sync.Mutex           // serialises the harness' own bookkeeping in parallel mode
+	codeOwner map[string]*checkRun // authorization code -> the callback check that carried it
+	rtReader  map[string]*checkRun // refresh token -> the check that last read it from the store
+	orphan    *checkRun
 }
 
 func newDriver(out, tmp string) (*driver, error) {
@@ -462,6 +468,15 @@ func strs(v []string) []any {
 // check (or of the HTTP handler serving it). It blocks until the scheduler
 // releases the gate and returns it with the directive filled in.
 func (d *driver) arrive(kind string, info map[string]any) *gate {
+	if d.parallel {
+		// truly parallel flows: no gates; the check is the one the caller identified (context value, code or refresh token)
+		c, _ := info["check"].(*checkRun)
+		if c == nil {
+			c = d.orphan
+		}
+		dir := Directive{Ans: c.defAns}
+		return &gate{check: c, kind: kind, info: info, dir: dir}
+	}
 	d.mu.Lock()
 	c := d.cur
 	d.mu.Unlock()
@@ -547,6 +562,29 @@ func (d *driver) nthSid(ref string) (string, bool) {
 }
 
 func (d *driver) start(st *Step) *checkRun {
+	c, req := d.prepare(st)
+	e := d.env
+	d.mu.Lock()
+	d.cur = c
+	d.mu.Unlock()
+	go func() {
+		defer close(c.done)
+		defer func() {
+			if r := recover(); r != nil {
+				c.pan = r
+				c.stack = string(debug.Stack())
+			}
+		}()
+		c.resp, c.err = e.filter.Check(context.Background(), req)
+	}()
+	d.wait(c)
+	return c
+}
+
+type checkKey struct{}
+
+// prepare builds the request of a step, registers the check and logs the req event.
+func (d *driver) prepare(st *Step) (*checkRun, *envoy.CheckRequest) {
 	e := d.env
 	f := e.fspec[st.F]
 	if f == nil {
@@ -596,6 +634,7 @@ func (d *driver) start(st *Step) *checkRun {
 
 	// path
 	path := ""
+	pendingCode := ""
 	kind := st.Kind
 	if kind == "" {
 		kind = "app"
@@ -649,6 +688,10 @@ func (d *driver) start(st *Step) *checkRun {
 			path += "?" + q
 		}
 		ev["states"], ev["codes"] = states, codes
+		if codeVal != "" {
+			d.codeOwner[codeVal] = nil // filled below once the check exists
+			pendingCode = codeVal
+		}
 		ev["qshape"] = ifs(st.QShape == "", "ok", st.QShape)
 	default:
 		idx := st.URL
@@ -676,22 +719,10 @@ func (d *driver) start(st *Step) *checkRun {
 		ev["shape"] = st.Shape
 	}
 	d.rec.emit(ev)
-
-	d.mu.Lock()
-	d.cur = c
-	d.mu.Unlock()
-	go func() {
-		defer close(c.done)
-		defer func() {
-			if r := recover(); r != nil {
-				c.pan = r
-				c.stack = string(debug.Stack())
-			}
-		}()
-		c.resp, c.err = e.filter.Check(context.Background(), req)
-	}()
-	d.wait(c)
-	return c
+	if pendingCode != "" {
+		d.codeOwner[pendingCode] = c
+	}
+	return c, req
 }
 
 func ifs(b bool, x, y string) string {
